@@ -10,11 +10,11 @@ extern "C" size_t __sanitizer_get_current_allocated_bytes(void);
 // (slow, stop-the-world) LeakSanitizer check run; LSan alone decides
 static bool leak_free_if_changed(Result &r, size_t before, const char *what) {
     if (__sanitizer_get_current_allocated_bytes() == before) return true;
-    if (__lsan_do_recoverable_leak_check() != 0) { r.fail(std::string("LeakSanitizer: memory still allocated after ") + what); return false; }
+    if (__lsan_do_recoverable_leak_check() != 0) { r.fatal = true; r.fail(std::string("LeakSanitizer: memory still allocated after ") + what); return false; }
     return true;
 }
 static bool leak_free(Result &r, const char *what) {
-    if (__lsan_do_recoverable_leak_check() != 0) { r.fail(std::string("LeakSanitizer: memory still allocated after ") + what); return false; }
+    if (__lsan_do_recoverable_leak_check() != 0) { r.fatal = true; r.fail(std::string("LeakSanitizer: memory still allocated after ") + what); return false; }
     return true;
 }
 
